@@ -74,6 +74,22 @@ def handle (line : String) : String :=
     match parseGate t with
     | some (g, []) => showResult (conjugate g [])
     | _ => "bad-op"
+  | [["conjs"], t, ss] =>
+    match parseGate t, (splitSemis ss).mapM nats? with
+    | some (g, []), some strs =>
+      " ; ".intercalate (strs.map fun ds => showResult (conjugate g (ds.map P.ofBits)))
+    | _, _ => "bad-op"
+  | ["hist"] :: hdr :: rest =>
+    match parseCirc (rest.headD []) with
+    | some ops =>
+      let n := ops.length
+      let flags := (List.range (n + 1)).map fun i => showB (isStabilizerCircuit (ops.take i))
+      let claims := ops.map fun op => match opClaim op with | some b => showB b | none => "-"
+      let showR (l : List (Sim.COp Float)) := match chooseRepr l with | .stabilizer => "S" | .vector => "V"
+      let mid := match (hdr.getD 3 "-").toNat? with | some m => showR (ops.take m) | none => "-"
+      (s!"isc {" ".intercalate flags} claims {" ".intercalate claims}".trimAscii.toString ++
+        s!" mid {mid} repr {showR ops} last {showB (isStabilizerCircuit ops)}")
+    | none => "bad-op"
   | ["circ"] :: _ :: rest =>
     match parseCirc (rest.headD []) with
     | some ops =>
@@ -111,23 +127,52 @@ def parseAns : List String → Ans
 
 def strDigits (ops : List P) : String := joinNats (ops.map P.toBits)
 
+/-! fast evaluation for wide gates (d ≥ 32): a Pauli matrix has one non-zero entry per row, so
+`M·P` and `P'·M` cost O(d²); the check is `M·Mᴴ = 1` (once) and `M·P = ±P'·M` (per string), which
+together give `M·P·Mᴴ = ±P'` up to rounding. -/
+
+abbrev AMat := Array (Array CFloat)
+def toAMat (M : LMat CFloat) : AMat := (M.map List.toArray).toArray
+def aget (M : AMat) (i j : Nat) : CFloat := (M.getD i #[]).getD j 0
+
+/-- for every row its unique non-zero column, `none` if some row has none or several -/
+def support (P : AMat) : Option (Array Nat) :=
+  P.mapM fun row =>
+    let nz := (List.range row.size).filter fun j => let x := row.getD j 0; x.re != 0.0 || x.im != 0.0
+    match nz with
+    | [j] => some j
+    | _ => none
+
+/-- `max |M·P − s·P'·M|`, `none` if `P` or `P'` is not monomial -/
+def intertwineDev (M : AMat) (P P' : AMat) (flip : Bool) : Option Float := do
+  let d := M.size
+  let sp ← support P
+  let sp' ← support P'
+  -- lhs[r][π(m)] = M[r][m]·P[m][π(m)]
+  let lhs : AMat := (Array.range d).map fun r =>
+    (List.range d).foldl (fun row m => let c := sp.getD m 0; row.setIfInBounds c (aget M r m * aget P m c))
+      (Array.replicate d (0 : CFloat))
+  let dev := (List.range d).foldl (fun acc r =>
+    let m := sp'.getD r 0
+    let p := aget P' r m
+    (List.range d).foldl (fun acc c =>
+      let rhs := p * aget M m c
+      let rhs := if flip then -rhs else rhs
+      max acc (CFloat.dist (aget lhs r c) rhs)) acc) 0.0
+  pure dev
+
 open Q1t.Spec.Clifford in
-/-- all strings of a term: claim ⇒ Clifford unitary and every answer exact; no claim ⇒ every answer refuses -/
-def checkConjAll (g : G) (flag : Bool) (answers : List (List String)) (mat : Option (LMat CFloat)) : String :=
+/-- the listed strings of a term: claim ⇒ Clifford unitary and every answer exact; no claim ⇒ every answer refuses -/
+def checkConjList (g : G) (flag : Bool) (strings : List (List P)) (answers : List (List String))
+    (mat : Option (LMat CFloat)) : String :=
   let k := Gate.nrBits g
-  let strings := allStrings k
   if answers.length ≠ strings.length then s!"fail answer-count expected {strings.length} got {answers.length}"
   else if !flag then
     -- a gate that does not claim must refuse every string
     match (strings.zip answers).find? (fun sa => match parseAns sa.2 with | .refused _ => false | _ => true) with
     | some (s, a) =>
       -- (also a loop iterated zero times over a non-claiming body: finding C06-loop0-nonclaiming-accepts is fixed)
-      let cls := "nonclaiming-accepts"
-      -- is the accepted answer at least exact?
-      let exact := match mat, parseAns a with
-        | some M, .ok fl o => o.length = k && maxDist (conjBy Float M (pauliMat Float s)) (signed fl (pauliMat Float o)) ≤ 1e-9
-        | _, _ => false
-      s!"fail {cls} is_stabilizer()=false but conjugate([{strDigits s}]) returned {" ".intercalate a} (rule-exact={exact})"
+      s!"fail nonclaiming-accepts is_stabilizer()=false but conjugate([{strDigits s}]) returned {" ".intercalate a}"
     | none => "ok"
   else
     match mat with
@@ -139,10 +184,17 @@ def checkConjAll (g : G) (flag : Bool) (answers : List (List String)) (mat : Opt
         let u := maxDist (LMat.mul M (adjoint Float M)) (LMat.identity d)
         if u > 1e-9 then s!"fail claiming-not-unitary dev={u}"
         else
+          let MA := toAMat M
           let bad := (strings.zip answers).filterMap fun (s, a) =>
             match parseAns a with
             | .ok fl o =>
               if o.length ≠ k then some s!"fail conj-wrong-length [{strDigits s}] -> {o.length} operators"
+              else if d ≥ 32 then
+                match intertwineDev MA (toAMat (pauliMat Float s)) (toAMat (pauliMat Float o)) fl with
+                | some dev =>
+                  if dev ≤ 1e-9 then none
+                  else some s!"fail conj-rule-wrong [{strDigits s}] -> {" ".intercalate a} dev={dev}"
+                | none => some "fail reference-pauli-matrix-not-monomial"
               else
                 let lhs := conjBy Float M (pauliMat Float s)
                 let dev := maxDist lhs (signed fl (pauliMat Float o))
@@ -158,6 +210,9 @@ def checkConjAll (g : G) (flag : Bool) (answers : List (List String)) (mat : Opt
           match bad with
           | [] => "ok"
           | b :: _ => b
+
+def checkConjAll (g : G) (flag : Bool) (answers : List (List String)) (mat : Option (LMat CFloat)) : String :=
+  checkConjList g flag (allStrings (Gate.nrBits g)) answers mat
 
 def parseMatAns (ws : List String) : Option (LMat CFloat) :=
   match ws with
@@ -181,6 +236,42 @@ def specCheck (line : String) : String :=
         | _ :: answers => checkConjAll g (flag = "true") answers mat
         | [] => "fail empty-answer"
       | _, _ => "fail bad-request"
+    | [["conjs"], t, ss] =>
+      match parseGate t, (splitSemis ss).mapM nats?, extra with
+      | some (g, []), some strs, flag :: more =>
+        let flag := flag.trimAscii.toString
+        if flag ≠ "true" ∧ flag ≠ "false" then "fail bad-flag" else
+        let mat := (more.head?).bind fun m => parseMatAns (words m)
+        checkConjList g (flag = "true") (strs.map fun ds => ds.map P.ofBits) (splitSemis (words ans)) mat
+      | _, _, _ => "fail bad-request"
+    | ["hist"] :: hdr :: _ =>
+      -- `isc b*(n+1) claims c*n mid R repr R last b # res x / y`
+      let ws := words ans
+      let main := ws.takeWhile (· ≠ "#")
+      let res := (ws.dropWhile (· ≠ "#")).drop 1
+      match main with
+      | "build" :: _ => "skip"
+      | "isc" :: rest =>
+        let flags := rest.takeWhile (· ≠ "claims")
+        let r1 := (rest.dropWhile (· ≠ "claims")).drop 1
+        let claims := r1.takeWhile (· ≠ "mid")
+        match (r1.dropWhile (· ≠ "mid")) with
+        | ["mid", midR, "repr", repr, "last", last] =>
+          let n := claims.length
+          if flags.length ≠ n + 1 then "fail unparsable-answer"
+          else
+            let conj (i : Nat) : Bool := (claims.take i).all (· ≠ "false")
+            match (List.range (n + 1)).find? (fun i => (flags.getD i "") ≠ showB (conj i)) with
+            | some i => s!"fail isc-not-conjunction after {i} building calls is_stabilizer_circuit()={flags.getD i ""} claims so far={claims.take i}"
+            | none =>
+              if last ≠ showB (conj n) then s!"fail isc-not-conjunction after execute: {last}"
+              else if repr = "S" ∧ !conj n then "fail routed-to-stabilizer-with-nonclaiming-gate"
+              else if repr ≠ "S" ∧ repr ≠ "V" then s!"fail no-representation {repr}"
+              else if midR = "S" ∧ !conj ((hdr.getD 3 "-").toNat?.getD 0) then "fail routed-to-stabilizer-with-nonclaiming-gate (execution in between)"
+              else if res.contains "notAStabilizer" ∧ (repr = "S" ∨ midR = "S") then "fail stabilizer-run-hit-nonstabilizer-gate"
+              else "ok"
+        | _ => "fail unparsable-answer"
+      | _ => "fail unparsable-answer"
     | ["conj"] :: t :: rest =>
       -- an operand slice of any length: a gate that does not claim must refuse it
       match parseGate t, extra with
